@@ -415,7 +415,12 @@ def check_meta(rep, sc, outs, idx, seed):
             if k < need - zero_tail:
                 sig = None
                 if sc["R"] > 0 and all(h[0] <= (done[p] // sc["R"]) * sc["R"] for h in hills[p][k:need]):
-                    sig = "multiple walkers: hills a peer deposited before rewriting its state are missing until the next re-read of the states"
+                    # the listed finding lasts until the reader has re-read the states, which it does at the first exchange after its own
+                    # next state write: a loss that is still there later is something else
+                    t_rewrite = (done[p] // sc["R"]) * sc["R"]
+                    t_reread = (t_rewrite // sc["R"] + 1) * sc["R"] + u + 1
+                    if s_ <= t_reread:
+                        sig = "multiple walkers: hills a peer deposited before rewriting its state are missing until the next re-read of the states"
                 rep.violation("multiple-walker metadynamics oracle: walker %d at step %d holds only %d hills of walker %d although %d had been flushed before its "
                               "previous read (scenario %d)" % (w, s_, k, p, need, idx), replay, "mw_lost_%d_seed%d" % (idx, seed), found_input=True, signature=sig)
                 if sig is None:
